@@ -292,7 +292,13 @@ func Failf(t TB, test string, c interface{}, format string, args ...interface{})
 	st.mu.Lock()
 	st.lastFail[test] = &failRec{c, msg}
 	st.mu.Unlock()
-	t.Fatalf("%s", msg)
+	// rapid only shrinks while the failure message stays identical; detailed
+	// messages carry run-dependent values (sequence numbers, inodes), so rapid
+	// gets a constant one and the detail goes into the replay file.
+	if os.Getenv("VERIF_VERBOSE_FAIL") != "" {
+		t.Fatalf("%s", msg)
+	}
+	t.Fatalf("property %q falsified (details in the replay file)", test)
 }
 
 // Check runs a rapid property n times with a seed derived from VERIF_SEED,
